@@ -52,6 +52,8 @@ func (c cfg) xs() ring.DistributionParameters {
 		return ring.Ternary{H: n}
 	case "gauss3.2":
 		return ring.DiscreteGaussian{Sigma: 3.2, Bound: 19.2}
+	case "gauss3.2b5":
+		return ring.DiscreteGaussian{Sigma: 3.2, Bound: 5} // tail cut well inside 6 sigma
 	}
 	return ring.Ternary{P: 0.5}
 }
@@ -64,6 +66,10 @@ func (c cfg) xe() ring.DistributionParameters {
 		return ring.DiscreteGaussian{Sigma: 0.5, Bound: 3}
 	case "gauss40":
 		return ring.DiscreteGaussian{Sigma: 40, Bound: 240}
+	case "gauss3.2b6.4": // declared tail cut at 2 sigma: the bound, not 6 sigma, is what the noise must respect
+		return ring.DiscreteGaussian{Sigma: 3.2, Bound: 6.4}
+	case "gauss8b12":
+		return ring.DiscreteGaussian{Sigma: 8, Bound: 12}
 	case "ternary-p0.5":
 		return ring.Ternary{P: 0.5}
 	}
@@ -78,13 +84,13 @@ func (c cfg) params() (rlwe.Parameters, error) {
 	return rlwe.NewParametersFromLiteral(rlwe.ParametersLiteral{LogN: c.LogN, Q: c.Q, P: c.P, Xs: c.xs(), Xe: c.xe(), RingType: rt, NTTFlag: true})
 }
 
-var xsKinds = []string{"ternary-p0.5", "ternary-p2/3", "ternary-p1/3", "ternary-h1", "ternary-h32", "ternary-hN/2", "ternary-hN", "gauss3.2"}
-var xeKinds = []string{"gauss3.2", "gauss3.2", "gauss0.5", "gauss40", "ternary-p0.5"}
+var xsKinds = []string{"ternary-p0.5", "ternary-p2/3", "ternary-p1/3", "ternary-h1", "ternary-h32", "ternary-hN/2", "ternary-hN", "gauss3.2", "gauss3.2b5"}
+var xeKinds = []string{"gauss3.2", "gauss3.2", "gauss0.5", "gauss40", "ternary-p0.5", "gauss3.2b6.4", "gauss8b12"}
 
 func cases(tier string, seed int64) []eng.Case {
 	r := eng.NewRand("c03-cases", seed)
 	var out []eng.Case
-	n := 60
+	n := 200
 	if tier == "thorough" {
 		n = 4000
 	}
@@ -187,14 +193,20 @@ type pool struct {
 	sum, sum2 float64
 	n         int
 	nominal   float64
+	means     []float64 // mean of each error vector added
 }
 
 func (p *pool) add(v []*big.Int) {
+	m := 0.0
 	for _, x := range v {
 		f, _ := new(big.Float).SetInt(x).Float64()
 		p.sum += f
 		p.sum2 += f * f
 		p.n++
+		m += f
+	}
+	if len(v) > 0 {
+		p.means = append(p.means, m/float64(len(v)))
 	}
 }
 func (p *pool) std() float64 {
@@ -214,10 +226,24 @@ func checkPool(c *eng.Ctx, name string, p *pool) {
 	c.Check(s >= p.nominal/2 && s <= p.nominal*2, "C03|"+name+"|noise-std-outside-[nominal/2,2*nominal]", func() string {
 		return fmt.Sprintf("pooled coefficients=%d empirical std=%.3f nominal=%.3f", p.n, s, p.nominal)
 	})
-	mean := p.sum / float64(p.n)
-	c.Check(math.Abs(mean) <= 6*s/math.Sqrt(float64(p.n))+1e-9, "C03|"+name+"|noise-mean-biased", func() string {
-		return fmt.Sprintf("pooled coefficients=%d mean=%.4f std=%.3f", p.n, mean, s)
-	})
+	// bias: the coefficients of one error vector are not independent (the sum of the coefficients of a product
+	// u*e is the product of the (signed) sums, and the key-dependent factors e_pk, s are the same for the whole
+	// pool), so the standard error of the mean is estimated from the per-encryption means, which are independent
+	// and centred given the keys; 8 standard errors of at least 16 vectors.
+	if k := len(p.means); k >= 16 {
+		var m, m2 float64
+		for _, x := range p.means {
+			m += x
+		}
+		m /= float64(k)
+		for _, x := range p.means {
+			m2 += (x - m) * (x - m)
+		}
+		se := math.Sqrt(m2/float64(k-1)) / math.Sqrt(float64(k))
+		c.Check(math.Abs(m) <= 8*se+1e-9, "C03|"+name+"|noise-mean-biased", func() string {
+			return fmt.Sprintf("error vectors=%d mean of their means=%.4f standard error=%.4f (pooled std=%.3f)", k, m, se, s)
+		})
+	}
 }
 
 func eqBig(a, b []*big.Int) bool {
